@@ -65,7 +65,7 @@ R = [
     (r"^Reader::read$", r"overflow:Sub", r"xref.size,1", "SAFE", "xref.size was just set to max_id().checked_add(1)? >= 1 (or already equal to it)"),
     (r"^Reader::read_stream_content$", r"overflow:Add", r"start,length", "SAFE", "start is an offset into the buffer and length a non-negative i64: the sum fits a 64-bit usize; the result is range-checked next", [{'kind': 'dominating', 'cond': '^Lt\\(\\$\\d+,0\\)$', 'truth': False, 'where': 'self'}]),
     (r"^Reader::search_substring$", r"overflow", r"", "SAFE", "index <= pattern.len() and index <= seek_pos - start_pos by construction of the scan; seek_pos < buffer.len()"),
-    (r"^Stream::decode_ascii85$", r"overflow:Add", r"count,1", "SAFE", "count is reset to 0 when it reaches 5", [{'kind': 'exists', 'fn': 'Stream::decode_ascii85', 'cond': '^Eq\\(\\$\\d+,5\\)$'}]),
+    (r"^Stream::decode_ascii85$", r"overflow:Add", r"count,1", "SAFE", "count is reset to 0 when it reaches 5", [{'kind': 'exists', 'fn': 'Stream::decode_ascii85', 'cond': '^Eq\\(\\$\\d+,5\\)$'}, {'kind': 'reset-at-limit', 'fn': 'Stream::decode_ascii85', 'limit': 5}]),
     (r"^Stream::decode_ascii85$", r"index:RangeTo", r"bytes.*count", "SAFE", "count is in 1..=4 here (count > 0 and reset at 5) and bytes is [u8; 4]", [{'kind': 'dominating', 'cond': '^Gt\\(\\$\\d+,0\\)$', 'truth': True, 'where': 'self'}, {'kind': 'exists', 'fn': 'Stream::decode_ascii85', 'cond': '^Eq\\(\\$\\d+,5\\)$'}]),
     (r"^Stream::decompress_zlib$", r"alloc:with_capacity", r"", "SAFE", "twice the compressed input length: proportional to the input"),
     (r"^ToUnicodeCMap::from_sections$", r"index:usize", r"dst_vec,0\),0", "SAFE", "the single-element arm: dst_vec.len() == 1 was matched and the parser yields non-empty UTF-16 strings (hex_u16 many1)"),
